@@ -55,6 +55,19 @@ THEOREMS = [
     "Cares.C19.sl_step_refines",
     "Cares.C19.sl_run_refines",
     "Cares.C19.sl_reachable_inv",
+    # ares_llist (pointer level)
+    "Cares.C19.ll_empty",
+    "Cares.C19.ll_create",
+    "Cares.C19.ll_insert_first",
+    "Cares.C19.ll_insert_last",
+    "Cares.C19.ll_claim",
+    "Cares.C19.ll_mvparent_first",
+    "Cares.C19.ll_mvparent_last",
+    "Cares.C19.ll_insert_before_partial",
+    "Cares.C19.ll_insert_after_partial",
+    "Cares.C19.ll_insert_before_pinned_breaks",
+    "Cares.C19.ll_observations",
+    "Cares.C19.ll_run_refines",
 ]
 TRUSTED = [
     "Lean 4.33.0 kernel; axioms allowed: propext, Classical.choice, Quot.sound",
